@@ -179,4 +179,27 @@ theorem cInit : Init cCfg cRo cFo cS0 := init_placedSt _ _ _ _ _ (fun _ => rfl)
 theorem cReach : Reachable cCfg cS0 cS1 := reachable_run _ _ .init
 theorem cCovers : Covers cCfg cRo cFo [0, 1, 2] cRkeys cFkeys := ⟨by decide, by decide, by decide, by decide⟩
 
+set_option maxRecDepth 4000 in
+/-- under `cSched` every `Sync` returns -/
+theorem cFinished : ∀ n, cCfg.up n = true → finished (crun cCfg cRkeys cFkeys cSched (cinit cS1)) n = true := by decide
+
+/-- the history above, all three nodes synchronising at once -/
+def eSched : List (Tid eN) :=
+  [.main 2, .main 0, .main 1, .main 0, .main 2, .main 1, .go 0 2, .main 2, .main 1, .main 2, .go 0 2,
+   .main 1, .main 0, .main 2, .main 0, .main 1, .main 0]
+theorem eFinished : ∀ n, (eW 8).cfg.up n = true → finished (crun (eW 8).cfg [0] [1] eSched (cinit (eW 8).st)) n = true := by
+  decide
+
+/-- two started non-owners hold the same shard (excluded by `Safe.fc` / `Inv.f4`) -/
+def dCfg : Cfg (Fin 3) (Fin 1) := { owner := fun _ => 2, fowner := fun _ => 2, cs := 2, trunc0 := true, sum := wSum }
+def dS : St (Fin 3) (Fin 1) :=
+  { recs := fun _ _ => none, files := fun n _ => if n = 2 then none else some [1, 2, 3],
+    rconf := fun _ _ => false, fph := fun _ _ => .idle, failed := fun _ => false }
+def dSchedSeq : List (Tid (Fin 3)) :=
+  [.main 0, .main 0, .main 0, .main 0, .go 0 2, .go 0 2, .go 0 2, .go 0 2, .main 0,
+   .main 1, .main 1, .main 1, .main 1, .go 1 2, .go 1 2, .go 1 2, .go 1 2, .main 1]
+def dSchedMix : List (Tid (Fin 3)) :=
+  [.main 0, .main 0, .main 0, .main 0, .main 1, .main 1, .main 1, .main 1,
+   .go 0 2, .go 1 2, .go 0 2, .go 1 2, .go 0 2, .go 1 2]
+
 end Sema.C14
